@@ -4,7 +4,7 @@ use super::path::path_to_string;
 
 #[inline]
 pub(crate) fn meta_name_value_2_isize(name_value: &MetaNameValue) -> syn::Result<isize> {
-    match &name_value.value {
+    match super::r#type::ungroup_expr(&name_value.value) {
         Expr::Lit(lit) => match &lit.lit {
             Lit::Str(lit) => {
                 return lit
